@@ -36,11 +36,16 @@ type vConn struct {
 	script []byte // server -> client
 	rpos   int
 	// release[i] = {after, upto}: script bytes up to `upto` become readable once the client wrote `after` bytes
-	gateAfter    int // client bytes that must be written before script[gateFrom:] is readable
-	gateFrom     int
-	gates        [][2]int // {after, from}: script[from:] is readable only once the client wrote `after` bytes
-	cutAt        int      // -1: never; otherwise the stream ends (EOF) after cutAt bytes
-	brokenOnce   *vCtx    // writes fail from the moment this context is done
+	gateAfter  int // client bytes that must be written before script[gateFrom:] is readable
+	gateFrom   int
+	gates      [][2]int // {after, from}: script[from:] is readable only once the client wrote `after` bytes
+	cutAt      int      // -1: never; otherwise the stream ends (EOF) after cutAt bytes
+	brokenOnce *vCtx    // writes fail from the moment this context is done
+	// paced delivery (a streaming server): from script offset paceFrom on, one packet of paceEvery bytes every pace
+	pace         time.Duration
+	paceEvery    int
+	paceFrom     int
+	paceStart    time.Time
 	failedWrites int
 	maxIdle      int // read timeouts delivered when nothing more arrives, then EOF
 
@@ -94,6 +99,21 @@ func (c *vConn) Read(p []byte) (int, error) {
 			}
 		}
 		if n := c.readable(); n > 0 {
+			if c.pace > 0 && c.rpos >= c.paceFrom {
+				// a server that streams: packet i of paceEvery bytes is on the wire i*pace after paceStart
+				i := (c.rpos - c.paceFrom) / c.paceEvery
+				arrival := c.paceStart.Add(time.Duration(i) * c.pace)
+				if time.Now().Before(arrival) {
+					if k := len(c.readDL); k > 0 && !c.readDL[k-1].IsZero() && c.readDL[k-1].Before(arrival) {
+						verifClockAdvanceTo(c.readDL[k-1].UnixMilli())
+						return 0, &net.OpError{Op: "read", Net: "tcp", Err: vTimeoutErr{}}
+					}
+					verifClockAdvanceTo(arrival.UnixMilli() + 1)
+				}
+				if end := c.paceFrom + (i+1)*c.paceEvery - c.rpos; n > end {
+					n = end
+				}
+			}
 			if n > len(p) {
 				n = len(p)
 			}
